@@ -499,6 +499,30 @@ class SQueue:
         self.sched.block(('queue.join', self.name), lambda: self.unfinished <= 0, None)
 
 
+class YieldAttr:
+    """(added for C18) data descriptor that makes every load and every store of an instance attribute a yield point, so
+    that a read-modify-write (`obj.a += 1`: LOAD_ATTR ... STORE_ATTR, two bytecodes) can be preempted between the two,
+    as the interpreter may do it.  Install on the class inside a patch:
+        with s.patched(Cls, counter=YieldAttr(s, 'counter', Cls.counter)): ...
+    the values live in the instance `__dict__` under another key; on the class itself the default is returned."""
+
+    def __init__(self, sched, name, default=None):
+        self.sched = sched
+        self.name = name
+        self.key = '_yieldattr_' + name
+        self.default = default
+
+    def __get__(self, obj, owner=None):
+        if obj is None:
+            return self.default
+        self.sched.yield_(('load', self.name))
+        return obj.__dict__.get(self.key, self.default)
+
+    def __set__(self, obj, value):
+        self.sched.yield_(('store', self.name))
+        obj.__dict__[self.key] = value
+
+
 class _FakeThreading:
     """stand-in for the `threading` module"""
 
